@@ -290,7 +290,7 @@ func run(c *vf.Ctx) {
 	c.RequireCounter("wire_pong_packets", 3)
 	c.RequireCounter("wire_packets_parsed", 10000)
 	c.RequireCounter("flushstop_runs", 10)
-	c.RequireCounter("raw_scripts", int64(c.N(300, 1500)))
+	c.RequireCounter("raw_scripts", int64(c.N(240, 1000)))
 	c.RequireCounter("raw_onerror_before_close", 50)
 	for _, k := range []string{"unknown-channel", "oversized-packet", "capacity-overflow", "unfinished-then-close", "truncated-packet", "unknown-packet-type", "huge-length-prefix", "random-bytes", "eof-flag-other", "valid-then-fault", "interleaved-channels"} {
 		c.RequireCounter("raw:"+k, 3)
@@ -345,6 +345,9 @@ func runPair(c *vf.Ctx, i int, r *rand.Rand, pings bool) {
 			slow = 64
 		}
 		maxChunk := []int{3, 64, 1500, 4096}[r.IntN(4)]
+		if P >= 333 && maxChunk < 64 {
+			maxChunk = 64 // megabytes through 3-byte chunks take tens of seconds under the race detector
+		}
 		if pings {
 			maxChunk, slow = 4096, 0 // a slow transport delays pongs beyond any reasonable timeout
 		}
@@ -374,7 +377,7 @@ func runPair(c *vf.Ctx, i int, r *rand.Rand, pings bool) {
 		}
 		// completion is logical: after its planned messages every channel carries one sentinel message; the channel
 		// queue is FIFO, so once the sentinels of all channels arrived nothing sent before them is still in flight
-		sentinel := []byte("<<sentinel: end of plan>>")
+		sentinel := []byte("\xffSENTNL\xff")
 		for d := 0; d < 2; d++ {
 			sides[d].sentinel = sentinel
 			sides[d].expectSentinels(nch)
@@ -382,7 +385,7 @@ func runPair(c *vf.Ctx, i int, r *rand.Rand, pings bool) {
 		// senders
 		var wg sync.WaitGroup
 		var sendFail atomic.Value
-		var tryRejects atomic.Int64
+		var tryRejects, sendTimeouts atomic.Int64
 		for d := 0; d < 2; d++ {
 			for _, pl := range plans[d] {
 				var chWg sync.WaitGroup
@@ -415,9 +418,15 @@ func runPair(c *vf.Ctx, i int, r *rand.Rand, pings bool) {
 									}
 									time.Sleep(50 * time.Microsecond)
 								}
-							} else if !m.Send(pl.id, msg) {
-								sendFail.Store(fmt.Sprintf("Send on channel %X returned false (running=%v)", pl.id, m.IsRunning()))
-								return
+							} else {
+								// documented: Send blocks until queued "or until the request times out" (10 s): false = not queued, retry
+								for !m.Send(pl.id, msg) {
+									sendTimeouts.Add(1)
+									if !m.IsRunning() {
+										sendFail.Store(fmt.Sprintf("Send on channel %X: connection stopped", pl.id))
+										return
+									}
+								}
 							}
 						}
 					}(d, pl, sIdx)
@@ -461,6 +470,7 @@ func runPair(c *vf.Ctx, i int, r *rand.Rand, pings bool) {
 		}
 		c.Case(tag, true)
 		c.Count("trysend_rejections", int(tryRejects.Load()))
+		c.Count("send_timeouts_retried", int(sendTimeouts.Load()))
 		// errors before completion?
 		for d := range sides {
 			for _, e := range errsBefore[d] {
@@ -572,46 +582,62 @@ func compareChannel(c *vf.Ctx, w map[string]any, dir string, pl *chanPlan, got [
 			return false
 		}
 	} else {
-		// two senders: sender s sent msgs[s], msgs[s+2], ... in that order; the merge order is free
-		next := []int{0, 1}
-		for i, g := range got {
-			matched := false
-			for pass := 0; pass < 2 && !matched; pass++ {
-				for s := 0; s < 2; s++ {
-					if next[s] < len(pl.msgs) && bytes.Equal(g, pl.msgs[next[s]]) {
-						next[s] += 2
-						matched = true
-						break
-					}
+		// two senders: sender s sent msgs[s], msgs[s+2], ... in that order; the merge order is free.
+		// got must be an interleaving of the two subsequences; missing EMPTY messages are tolerated here and
+		// reported under their own key. Exact search over (position in A, position in B, position in got).
+		var seq [2][][]byte
+		for k, m := range pl.msgs {
+			seq[k%2] = append(seq[k%2], m)
+		}
+		A, B := seq[0], seq[1]
+		type st struct{ i, j, k int }
+		best := map[st]int{{0, 0, 0}: 0} // minimal number of skipped empties to reach the state
+		queue := []st{{0, 0, 0}}
+		final := -1
+		deepest := 0
+		for len(queue) > 0 {
+			cur := queue[0]
+			queue = queue[1:]
+			cost := best[cur]
+			if cur.k > deepest {
+				deepest = cur.k
+			}
+			if cur.i == len(A) && cur.j == len(B) && cur.k == len(got) {
+				if final < 0 || cost < final {
+					final = cost
 				}
-				if !matched && pass == 0 { // skip missing empty messages and retry once
-					skipped := false
-					for s := 0; s < 2; s++ {
-						for next[s] < len(pl.msgs) && len(pl.msgs[next[s]]) == 0 && len(g) != 0 {
-							next[s] += 2
-							lostEmpty++
-							skipped = true
-						}
-					}
-					if !skipped {
-						break
-					}
+				continue
+			}
+			push := func(n st, c int) {
+				if old, ok := best[n]; !ok || c < old {
+					best[n] = c
+					queue = append(queue, n)
 				}
 			}
-			if !matched {
-				c.Violation("message-mismatch:two-senders", w2, "%s channel %X: delivery #%d (%d bytes) is not the next message of either sender", dir, pl.id, i, len(g))
-				return false
+			if cur.i < len(A) {
+				if cur.k < len(got) && bytes.Equal(got[cur.k], A[cur.i]) {
+					push(st{cur.i + 1, cur.j, cur.k + 1}, cost)
+				}
+				if len(A[cur.i]) == 0 {
+					push(st{cur.i + 1, cur.j, cur.k}, cost+1)
+				}
+			}
+			if cur.j < len(B) {
+				if cur.k < len(got) && bytes.Equal(got[cur.k], B[cur.j]) {
+					push(st{cur.i, cur.j + 1, cur.k + 1}, cost)
+				}
+				if len(B[cur.j]) == 0 {
+					push(st{cur.i, cur.j + 1, cur.k}, cost+1)
+				}
 			}
 		}
-		for s := 0; s < 2; s++ {
-			for ; next[s] < len(pl.msgs); next[s] += 2 {
-				if len(pl.msgs[next[s]]) != 0 {
-					c.Violation("message-lost", w2, "%s channel %X (two senders): message #%d (%d bytes) never delivered", dir, pl.id, next[s], len(pl.msgs[next[s]]))
-					return false
-				}
-				lostEmpty++
-			}
+		if final < 0 {
+			w2["deliveries"] = len(got)
+			w2["first_unexplained_delivery"] = deepest
+			c.Violation("message-mismatch:two-senders", w2, "%s channel %X: the %d deliveries are not an order-preserving merge of the two senders' sequences (%d messages); first delivery that cannot be explained: #%d", dir, pl.id, len(got), len(pl.msgs), deepest)
+			return false
 		}
+		lostEmpty = final
 	}
 	if lostEmpty > 0 {
 		c.Count("empty_messages_lost", lostEmpty)
